@@ -116,6 +116,12 @@ def gen(seed: int, i: int, tier: str) -> dict:
                 p = rng.choice(G.ABSURD[t])  # error paths must agree across versions as well
             src = rng.choice([n, 255]) if t == 3 else n
             ops.append(["line", f"{src};255;3;0;{t};{p}\n"])
+            if t == 3:
+                # the id request registers a placeholder node (highest id + 1): it is a known node from now on
+                nxt = (max(known) + 1) if known else 1
+                if nxt <= 254:
+                    known.add(nxt)
+                    kids.setdefault(nxt, set())
         elif r < 0.75 and both2x and not hb_ok:
             # heartbeat response between {2.0, 2.1} and 2.2: the stated exception covers only what it does to a
             # KNOWN node with a well-formed payload; from an unknown node, or with an absurd payload, the versions
